@@ -19,12 +19,7 @@ import warnings
 from array import array
 from collections.abc import Callable
 from functools import wraps
-from multiprocessing import (
-    Array,
-    Queue as mp_Queue,
-    RLock as mp_RLock,
-    current_process,
-)
+from multiprocessing import Queue as mp_Queue, current_process, get_context
 from multiprocessing.process import BaseProcess as Process
 from operator import floordiv
 from queue import Empty, Queue
@@ -809,6 +804,11 @@ def _process_run_wrapper(self, *args, **kwargs):
 
     return _process_run_wrapper.__wrapped__(self, *args, **kwargs)
 
+
+# Synchronization primitives created in a "fork" context can't be shared with a
+# process started via any other method but the reverse is possible.
+Array = get_context("spawn").Array
+mp_RLock = get_context("spawn").RLock
 
 # Private internal variables
 _query_timeout = 0.1
